@@ -252,7 +252,7 @@ def run(ctx):
     for i, t in enumerate(types if not ctx.quick else types[ctx.seed % 2::2] + ["CYS", "LYS"]):
         seq = grid[:]
         rng.shuffle(seq)
-        tjobs.append({"res": t, "seed": ctx.seed + i, "angles": [170.0, -170.0, 175.0, -175.0, 179.9, 60.0, -0.15, -120.0, 0.2, 90.0, -179.8, 33.0] + seq[:(6 if ctx.quick else 12)],
+        tjobs.append({"res": t, "seed": ctx.seed + i, "angles": [170.0, -170.0, 175.0, -175.0, 179.9, 60.0, 60.3, 60.1, -0.15, -120.0, -119.6, 0.2, 90.0, 449.75, -179.8, 33.0] + seq[:(6 if ctx.quick else 12)],
                       "tet": [120.0, -120.0, 37.5, 240.0]})
     for tr in core.pmap(_turn_job, tjobs, chunksize=1):
         for o in tr:
@@ -261,7 +261,7 @@ def run(ctx):
             ctx.evaluations += 1
             ctx.nontrivial.add(o["what"])
     axes = [(1, 0, 0), (0, 1, 0), (0, 0, 1), (1, 2, 2), (2, 3, 6), (-1, 4, -8)]
-    angs = [0.0, 30.0, 90.0, 180.0, -90.0, 270.0, -179.5, 359.0, 53.13010235415598, -126.86989764584402]
+    angs = [0.0, 30.0, 90.0, 180.0, -90.0, 270.0, -179.5, 359.0, 0.3, -0.4, 359.7, -360.4, 720.25, 53.13010235415598, -126.86989764584402]
     chi = _chi_job({"axes": axes, "angles": angs})
     senses = set(o["sense"] for o in chi if o["what"].find("angle 0.0") < 0 and "angle 180.0" not in o["what"])
     for o in chi:
